@@ -138,6 +138,7 @@ inline json world_of(const Tree &t)
 	fs.push_back({{"path", "/t/adir"}, {"kind", "dir"}});
 	fs.push_back({{"path", "/t/noperm.conf"}, {"kind", "noperm"}});
 	fs.push_back(fs_file("/t/good.conf", "# good\n"));
+	fs.push_back(fs_file("nonexistent.conf", "# in the working directory, which is not a search directory\n"));
 	fs.push_back({{"path", "/t/sub"}, {"kind", "dir"}});
 	fs.push_back(fs_file("/t/sub/good.conf", "# good too\n"));
 	json w;
